@@ -1310,6 +1310,22 @@ def _closure_on(clo, arg):
     return None
 
 
+def _map_or_alts(x):
+    """the two values `opt.map_or(D, f)` can take, when f is a closure or an enum-variant constructor"""
+    from . import mir as _m
+    opt, d_, f_ = x[2]
+    if f_[0] == "closure":
+        r_ = _closure_on(f_, ("payload", opt, "Ok/Some"))
+        return [d_, r_] if r_ is not None else None
+    if f_[0] == "fn":
+        par_, _, var_ = f_[1].rpartition("::")
+        for pr in _m.PROGRAMS:
+            adt_ = pr.adts.get(par_)
+            if adt_ is not None and any(v_.get("name") == var_ for v_ in adt_.get("variants", [])):
+                return [d_, ("agg", par_, var_, (("fld", "0", ("payload", opt, "Ok/Some")),))]
+    return None
+
+
 def ok_payload(t, tag="Ok/Some"):
     """the Ok / Some payload of a Result / Option valued term: looks through `?`, drops the
     alternatives that are certainly Err / None (they do not reach the use of the payload)."""
@@ -1323,6 +1339,10 @@ def ok_payload(t, tag="Ok/Some"):
             x = x[1]
         if x[0] == "phi":
             for y in x[1]:
+                flat(y)
+        elif x[0] == "call" and x[1] == "std::option::Option::map_or" and len(x[2]) == 3 and _map_or_alts(x) is not None:
+            # opt.map_or(D, f): D or f(payload of opt)
+            for y in _map_or_alts(x):
                 flat(y)
         elif x not in alts:
             alts.append(x)
@@ -1459,24 +1479,38 @@ def resolve_terms(prog, t, depth=3, _memo=None, assumptions=()):
                 elif a0[0] == "agg" and a0[2] == "Some" and a0[3][0][2][0] == "tuple" and len(a0[3][0][2][1]) == 2:
                     x_, y_ = a0[3][0][2][1]
                     out = ("tuple", (("agg", "std::option::Option", "Some", (("fld", "0", x_),)), ("agg", "std::option::Option", "Some", (("fld", "0", y_),))))
+            def apply_fn(f_, arg_):
+                """f_(arg_) for a closure, a local function item, or an enum tuple-variant constructor given as a function item"""
+                if f_[0] == "closure" and prog.body(f_[1]) is not None:
+                    caps_ = {n: v for _, n, v in f_[2]}
+                    c2_ = Ctx(prog.body(f_[1]), params={2: arg_}, captures=caps_, assumptions=assumptions).settle()
+                    return rec(c2_.T.return_term(), depth - 1)
+                if f_[0] == "fn":
+                    fb_ = prog.body(f_[1])
+                    if fb_ is not None and fb_.kind == "fn" and _is_pure_small(prog, fb_):
+                        c2_ = Ctx(fb_, params={1: arg_}, assumptions=assumptions).settle()
+                        return rec(c2_.T.return_term(), depth - 1)
+                    par_, _, var_ = f_[1].rpartition("::")
+                    adt_ = prog.adts.get(par_)
+                    if adt_ is not None and any(v_.get("name") == var_ for v_ in adt_.get("variants", [])):
+                        return ("agg", par_, var_, (("fld", "0", arg_),))
+                return None
+
             if out is None and assumptions and t[1] == "std::option::Option::map_or" and len(args) == 3:
                 a = assumed_ok(assumptions, args[0])
                 if a is False:
                     out = args[1]
-                elif a is True and args[2][0] == "closure" and prog.body(args[2][1]) is not None:
-                    caps = {n: v for _, n, v in args[2][2]}
-                    c2 = Ctx(prog.body(args[2][1]), params={2: ok_payload(args[0])}, captures=caps, assumptions=assumptions).settle()
-                    out = rec(c2.T.return_term(), depth - 1)
+                elif a is True:
+                    out = apply_fn(args[2], ok_payload(args[0]))
             if out is None and assumptions and t[1] == "std::option::Option::map" and len(args) == 2:
                 # Option::map of a value whose variant the world fixes
                 a = assumed_ok(assumptions, args[0])
                 if a is False:
                     out = ("agg", "std::option::Option", "None", ())
-                elif a is True and args[1][0] == "closure" and prog.body(args[1][1]) is not None:
-                    cb2 = prog.body(args[1][1])
-                    caps = {n: v for _, n, v in args[1][2]}
-                    c2 = Ctx(cb2, params={2: ok_payload(args[0])}, captures=caps, assumptions=assumptions).settle()
-                    out = ("agg", "std::option::Option", "Some", (("fld", "0", rec(c2.T.return_term(), depth - 1)),))
+                elif a is True:
+                    r_ = apply_fn(args[1], ok_payload(args[0]))
+                    if r_ is not None:
+                        out = ("agg", "std::option::Option", "Some", (("fld", "0", r_),))
             if out is None and t[1] in _UNWRAP_OR and args:
                 a = assumed_ok(assumptions, args[0])
                 if a is True:
